@@ -987,6 +987,24 @@ fn tween_laws(which: usize, ctx: &mut Ctx) {
 						);
 						continue;
 					}
+					// chunk-freedom while the parameter moves: a linear tween that begins and ends on a call boundary of every
+					// partition takes the same value at every frame whatever the call size (kira interpolates linearly inside a call)
+					// (the compressor applies threshold, ratio, attack and release at control rate, once per call: not covered)
+					let control_rate = which == 4 && ["threshold", "ratio", "attack", "release"].contains(&name.as_str());
+					if tw_calls == 6.0 && !control_rate {
+						let peak = ya.iter().fold(1e-3f32, |m, v| m.max(v.left.abs()).max(v.right.abs()));
+						for call in [64usize, 32] {
+							ctx.evals += 1;
+							let yb = run(call);
+							if let Some(i) = (0..ya.len()).find(|&i| (ya[i].left - yb[i].left).abs() > 1e-4 * peak || (ya[i].right - yb[i].right).abs() > 1e-4 * peak || !finite(yb[i])) {
+								ctx.fail(
+									format!("{} :: {} while {} moves", S_PART, TWEEN_EFFECTS[which], name.split(' ').last().unwrap_or("")),
+									format!("{}; process calls of 128 frames vs calls of {} frames: frame {} = {:?} vs {:?} (peak {})", desc(), call, i, ya[i], yb[i], peak),
+								);
+								break;
+							}
+						}
+					}
 					ctx.nontrivial_extra += 1;
 					ctx.state(hash64(&(which, name, a, b, tw_calls.to_bits())));
 				}
